@@ -8,6 +8,7 @@ const haveBLS = false
 const buildPrefix = "psown-"
 
 func blsCase(n, t int) harness.Case                  { return harness.Case{} }
+func blsLargeQuorumCase(n, t int) harness.Case       { return harness.Case{} }
 func blsCaseIDs(n, t int, ids []uint16) harness.Case { return harness.Case{} }
 
 func concurrentBLSCases() []harness.Case { return nil }
